@@ -138,18 +138,18 @@ PROPS['C14'] = dict(
          "sequences with duplicates and absent keys, constructors with repeated keys, random histories; key types string, int, "
          "rune, any; distinct = distinct (key type, operation, outcome, size classes, key present/absent)",
     exhaustive_subspaces="all single steps from every ordered subset of a 3-key (quick) / 4-key (thorough) universe",
-    level_text="Lean 4 theorems C14_set / C14_remove / C14_removeValues (reading after SetValue / RemoveValue(s) equals the abstract Go map k -> lookup, absent keys read and remove as zero, a key requested twice reads zero the second time), C14_make_last_wins (constructors: the last association wins, keys distinct), C14_step_nodup / C14_history_nodup (keys stay distinct under every call of every history), C14_views (array view, iteration and key list enumerate exactly the associations of the abstract map, each once). Tied to /repo by the differential run (finite-map equality, unordered views compared as permutations) and the executable spec mapAllowed.",
+    level_text="Lean 4 theorems C14_set / C14_remove / C14_removeValues (reading after SetValue / RemoveValue(s) equals the abstract Go map k -> lookup, absent keys read and remove as zero, a key requested twice reads zero the second time), C14_make_last_wins (constructors: the last association wins, keys distinct), C14_step_nodup / C14_history_nodup (keys stay distinct under every call of every history), C14_views (array view, iteration and key list enumerate exactly the associations of the abstract map, each once). Tied to /repo by the differential run (finite-map equality, unordered views compared as permutations) and the executable spec mapAllowed. C14_step_refines: every call of the Map model is accepted by the executable specification mapAllowed that also judges the real observations.",
     level_note="A Go map is modelled as an association list with distinct keys in unspecified order; key identity is Go == on canonical ids. The executable spec mapAllowed is written against lookup, independently of mset/mremove; its agreement with the model on every line is part of the correspondence run.",
 )
 
 PROPS['C03'] = dict(
-    id='C03', modules=['CollectionModel.Props.C03'], key=assoc_key, nontrivial=lambda l: l.get('op') != 'make' or len(l.get('ps', [])) > 1,
+    id='C03', modules=['CollectionModel.Props.C03', 'CollectionModel.Props.C03Refine'], key=assoc_key, nontrivial=lambda l: l.get('op') != 'make' or len(l.get('ps', [])) > 1,
     rule="cases = single Catalog calls (associations in order + observable key index GetValue(k) for every universe key, before "
          "and after): every operation with every present/absent key from states over ordered subsets, bulk key sequences, "
          "constructors with repeated keys, sort (default and custom ranker) / reverse / shuffle, random histories; key types "
          "string, int, rune, float64, any and *int (distinct pointers with equal content); values repeating across keys",
     exhaustive_subspaces="all single steps from every ordered subset of a 3-key (quick) / 4-key (thorough) universe per key type",
-    level_text="Lean 4 theorems over the two-component model (association list + key index as separate structures, updated as catalog.go updates them): C03_set (new key appended, existing key replaced in place, invariant kept), C03_remove / C03_removeValues (exactly that association deleted, value-or-zero returned, located by key), C03_views_agree, C03_reorder (sort/reverse/shuffle permute only; mapping unchanged), C03_step_inv / C03_history_inv (list and key index describe the same associations with distinct keys after EVERY call of EVERY history). Tied to /repo by the differential run and the executable spec catAllowed + observable-coherence check.",
+    level_text="Lean 4 theorems over the two-component model (association list + key index as separate structures, updated as catalog.go updates them): C03_set (new key appended, existing key replaced in place, invariant kept), C03_remove / C03_removeValues (exactly that association deleted, value-or-zero returned, located by key), C03_views_agree, C03_reorder (sort/reverse/shuffle permute only; mapping unchanged), C03_step_inv / C03_history_inv (list and key index describe the same associations with distinct keys after EVERY call of EVERY history), C03_step_refines (every call of the model, for every catalog satisfying the invariant, every operation and every total-preorder ranker, is accepted by the executable specification catAllowed – the same function that judges the real observations). Tied to /repo by the differential run and the executable spec catAllowed + observable-coherence check.",
     level_note="The private key index is observed through GetValue on every universe key. Association objects shared between list and index are modelled by updating both components. Sampled correspondence.",
 )
 
